@@ -237,14 +237,3 @@ func call(q *request) *response {
 		return &response{Stall: true}
 	}
 }
-
-// stopProc terminates the SUT process (used when a run ends in a state the
-// next run must not inherit).
-func stopProc() {
-	procMu.Lock()
-	defer procMu.Unlock()
-	if proc != nil {
-		proc.kill()
-		proc = nil
-	}
-}
